@@ -13,8 +13,8 @@ THEOREMS = ["Genql.C19." + t for t in [
     "exists_error", "in_subquery_error", "sortRows_key_error"]] + ["Genql.Obligations.C19.errors_not_swallowed"]
 TRUSTED = ["the go/ast detector of error-swallowing shapes is syntactic (three shapes)", "sqlparser"]
 RULE = ("queries with a fault-injecting function in every clause position (WHERE, select list, HAVING, CTE body, derived table, "
-        "row-scoped sub-query, union branch, IN sub-query, EXISTS, ON of sequential and PARALLEL joins with partner-less keys), an "
-        "ORDER BY key unreadable on one row at every position of 3-9 row tables, RAISE / RAISE_WHEN firing on some row, type errors; the "
+        "row-scoped sub-query, union branch, IN sub-query, EXISTS, ON of sequential and PARALLEL joins with partner-less keys), "
+        "ON faults of joins over 40-48 distinct keys (more keys than processors; every pair, one key, one pair), an ORDER BY key unreadable on one row at every position of 3-9 row tables, RAISE / RAISE_WHEN firing on some row, type errors; the "
         "fault-free run counts the invocations n, then EVERY k = 1..n is injected (complete per query): Exec must report an error "
         "and return no rows; the Lean evaluator with the same fault (VF_FAIL fails on the k-th call's argument) must agree; a "
         "follow-up query on the same document object must equal its result on a pristine copy; non-trivial = k >= 2 or a nested "
@@ -176,6 +176,21 @@ def explore(chk, rnd, tier):
         if o.get("r") != "error" or o.get("rowsWithError"):
             chk.add_violation("failure-not-reported", {"kind": name, "sql": sql, "doc": doc, "impl": o, "run_in_process": i % 3 + 1})
             return
+    # joins over MANY keys (more distinct keys than there are processors) whose ON fails on every pair, on one side's keys only,
+    # or on a single pair: however the pairs are distributed over workers, the query reports the error — and returns
+    wide = {"l": [{"id": i, "s": "x", "ok": ("bad" if i == 37 else True)} for i in range(48)], "r": [{"id": i, "m": i % 5} for i in range(40)]}
+    wq = []
+    for kind in ("JOIN", "LEFT JOIN", "PARALLEL JOIN", "PARALLEL LEFT JOIN", "PARALLEL RIGHT JOIN", "PARALLEL HASH_JOIN"):
+        wq.append("SELECT * FROM l x %s r y ON x.id >= y.id AND x.s" % kind)                       # a string where a boolean is due: every pair
+        wq.append("SELECT * FROM l x %s r y ON x.id < y.id AND x.ok" % kind)                         # one key only (its `ok` is a string)
+        wq.append("SELECT * FROM l x %s r y ON x.id = y.id AND x.s + 1 > 0" % kind)                # type error, equality shape
+    wouts = run_go([{"op": "query", "doc": enc_val(wide), "sql": q} for q in wq for _rep in range(2)])
+    for i, o in enumerate(wouts):
+        chk.count("wide-join-fault:" + str(o.get("r")))
+        if o.get("r") != "error" or o.get("rowsWithError"):
+            chk.add_violation("failure-not-reported", {"kind": "wide-join-on-fault", "sql": wq[i // 2], "doc": wide, "impl": o,
+                                                       "run_in_process": i % 2 + 1})
+            return
     # a sort key that cannot be read on ONE row, at every position of tables of 3-9 rows: the comparator fails in the
     # middle of the sort, and the failure must survive the comparisons that follow it
     oreqs, lreqs2, ometa = [], [], []
@@ -208,7 +223,7 @@ def explore(chk, rnd, tier):
             return
         if o.get("r") != "error":
             chk.add_violation("fault-not-reported", {"sql": sql, "doc": {"t": rows}, "impl": o,
-                                                     "detail": "ORDER BY key unreadable on one row: Exec must fail, it returned rows"})
+                                                     "detail": "an ORDER BY key unreadable on one row: Exec must fail, it returned rows"})
             return
     # usable afterwards: a failed query followed by a good one on the SAME document object
     seqs = []
